@@ -5,6 +5,7 @@ import (
 	"crypto/sha512"
 	"errors"
 	"fmt"
+	"path"
 	"strings"
 	"time"
 
@@ -24,7 +25,9 @@ func init() {
 		"backend call (GetChangeOps, reads, writes, mode change, TryCommit), retriable or permanent, manifest contents of that "+
 		"workspace (a concurrent writer edits the head between attempts), unparseable manifest, existing file without overwrite. "+
 		"Exhaustive: every script for budgets -2..3 (all non-final attempts failing retriably), several writers; snapshot mode; "+
-		"random longer scripts. Compared: result class and full call log. Non-trivial: at least two attempts, or a failing "+
+		"ARBITRARY names: every candidate name of the pool (uncanonical, climbing, rooted, empty, dots, trailing and double "+
+		"slashes, unicode) x out dirs with every one- and two-attempt script at budget 1, snapshot dirs x image names with "+
+		"every fault ordinal; random longer scripts. Compared: result class and full call log (every path argument). Non-trivial: at least two attempts, or a failing "+
 		"ChangeOps call, or a non-empty manifest merged; distinct by op line.", runC14)
 }
 
@@ -66,6 +69,7 @@ type c14VCS struct {
 	anomalies []string
 	clock     *int              // optional shared clock
 	files     map[string][]byte // contents of the files written (last write wins)
+	queries   int               // RetriableError calls so far (a dry run asks without ever requesting a workspace)
 }
 
 func (v *c14VCS) rec(e c14Ev) {
@@ -121,10 +125,18 @@ func (v *c14VCS) RetriableError(err error) bool {
 		}
 		ans = ce.retriable
 	default: // an error the code produced itself: the script decides what the backend says
-		if v.attempt >= 0 && v.attempt < len(v.script) {
-			ans = v.script[v.attempt].retriable
+		at := v.attempt
+		if at < 0 { // dry run: no workspace was ever requested; the k-th query is about the k-th iteration of the loop
+			at = v.queries
 		}
+		if at >= 0 && at < len(v.script) {
+			ans = v.script[at].retriable
+		}
+		v.queries++
+		v.rec(c14Ev{kind: "retriable", ws: at, ok: ans})
+		return ans
 	}
+	v.queries++
 	v.rec(c14Ev{kind: "retriable", ws: v.attempt, ok: ans})
 	return ans
 }
@@ -252,24 +264,48 @@ type c14Cfg struct {
 	cand                  string
 	image                 []byte
 	ts                    time.Time
+	names                 *c14Names // nil: out dir "out", snapshot dir "snap", image name "fw.fd"
+}
+
+// c14Names: --out_dir, --snapshot_dir (used when snap) and the image name; arbitrary texts free of the
+// protocol separators ' ', '=', '@', ',', '+', '|', ':', ';'. The snapshot dir must not be empty.
+type c14Names struct{ out, sdir, img string }
+
+func (cf c14Cfg) nm() c14Names {
+	if cf.names == nil {
+		return c14Names{"out", "snap", "fw.fd"}
+	}
+	return *cf.names
+}
+
+// cleanName is the canonical spelling of the endorsement's file name, computed here with Go's package
+// path, independently of the code under test.
+func (cf c14Cfg) cleanName() string { return path.Clean(endorseBasename(cf.cand)) }
+
+// refused: the cleaned name is rooted or climbs out of the output directory.
+func (cf c14Cfg) refused() bool {
+	b := cf.cleanName()
+	return path.IsAbs(b) || strings.HasPrefix(b, "../")
 }
 
 func (cf c14Cfg) newEntry() mEntry {
 	d := sha512.Sum384(cf.image)
-	return mEntry{endorseBasename(cf.cand), hx(d[:]), fmt.Sprint(cf.ts.Unix())}
+	return mEntry{cf.cleanName(), hx(d[:]), fmt.Sprint(cf.ts.Unix())}
 }
 
 func c14OpLine(cf c14Cfg, dry bool, budget int, script []c14Attempt) string {
 	e := cf.newEntry()
-	return fmt.Sprintf("c14 op=retry budget=%d dry=%s snap=%s ow=%s svsm=%s scrtm=%s cand=%s root=R out=out sdir=snap img=fw.fd dg=%s t=%s script=%s",
-		budget, b2s(dry), b2s(cf.snap), b2s(cf.ow), b2s(cf.svsm), b2s(cf.scrtm), cf.cand, e.digest, e.time, c14ShowScript(script))
+	n := cf.nm()
+	return fmt.Sprintf("c14 op=retry budget=%d dry=%s snap=%s ow=%s svsm=%s scrtm=%s cand=%s root=R out=%s sdir=%s img=%s dg=%s t=%s script=%s",
+		budget, b2s(dry), b2s(cf.snap), b2s(cf.ow), b2s(cf.svsm), b2s(cf.scrtm), cf.cand, n.out, n.sdir, n.img, e.digest, e.time, c14ShowScript(script))
 }
 
 func c14Context(cf c14Cfg, budget int, v endorse.VersionControl, rng *Rng) (*endorse.Context, context.Context) {
-	ec := &endorse.Context{Image: cf.image, Timestamp: cf.ts, VCS: v, CommitRetries: budget, OutDir: "out",
-		CandidateName: cf.cand, ImageName: "fw.fd"}
+	n := cf.nm()
+	ec := &endorse.Context{Image: cf.image, Timestamp: cf.ts, VCS: v, CommitRetries: budget, OutDir: n.out,
+		CandidateName: cf.cand, ImageName: n.img}
 	if cf.snap {
-		ec.SnapshotDir = "snap"
+		ec.SnapshotDir = n.sdir
 	}
 	if cf.svsm {
 		ec.SvsmImage = []byte("svsm image")
@@ -431,6 +467,52 @@ func c14Oracle(c *Ctx, cf c14Cfg, budget int, script []c14Attempt, v *c14VCS, su
 			}
 		}
 	}
+	// 8. paths: every attempt computes its workspace paths the same way (same arguments, call for call, in
+	// every attempt); in manifest mode the manifest is read and written at ReleasePath(Join(out, manifest)) and the
+	// endorsement probed / written / re-moded at ReleasePath(Join(out, canonical name)); a refused name (rooted or
+	// climbing once cleaned) touches no file: only the manifest is read.
+	argsOf := map[int][]string{}
+	for _, e := range log {
+		switch e.kind {
+		case "readManifest", "readFile", "writeFiles", "chmod", "writeManifest":
+			argsOf[e.ws] = append(argsOf[e.ws], e.kind+"@"+e.arg)
+		}
+	}
+	var longest []string
+	for _, a := range argsOf {
+		if len(a) > len(longest) {
+			longest = a
+		}
+	}
+	for _, a := range argsOf {
+		for i := range a {
+			if a[i] != longest[i] {
+				find("paths-differ-between-attempts", "two attempts made the same call with different path arguments")
+			}
+		}
+	}
+	if !cf.snap {
+		nm := cf.nm()
+		wantManifest := "R/" + path.Join(nm.out, endorse.ManifestFile)
+		wantFile := "R/" + path.Join(nm.out, cf.cleanName())
+		for _, e := range log {
+			switch e.kind {
+			case "readManifest", "writeManifest":
+				if e.arg != wantManifest {
+					find("manifest-path", "the manifest was read or written at an unexpected path")
+				}
+			case "readFile", "writeFiles", "chmod":
+				if cf.refused() {
+					find("refused-name-touched-files", "a candidate name that is rooted or climbs out of the output directory reached the file system")
+				} else if e.arg != wantFile {
+					find("endorsement-path", "the endorsement was probed, written or re-moded at a path other than the canonical one below the output directory")
+				}
+			}
+		}
+		if cf.refused() && success {
+			find("refused-name-accepted", "a run with a rooted or climbing candidate name reported success")
+		}
+	}
 	for ws := range obtained {
 		if !committed[ws] && destroyed[ws] != 1 {
 			find("workspace-not-released", fmt.Sprintf("a failed attempt's workspace was destroyed %d times", destroyed[ws]))
@@ -560,10 +642,11 @@ func runC14(c *Ctx) {
 		return s
 	}
 	// ---- exhaustive: budgets -2..3, every script whose non-final attempts fail retriably ----
+	recTag := "exh"
 	var rec func(cf c14Cfg, budget, maxLen int, seq []int, mode, initial int)
 	rec = func(cf c14Cfg, budget, maxLen int, seq []int, mode, initial int) {
 		for o := 0; o < c14Alphabet; o++ {
-			one(cf, budget, build(cf, append(seq, o), mode, initial), false, "exh")
+			one(cf, budget, build(cf, append(seq, o), mode, initial), false, recTag)
 		}
 		if len(seq)+1 < maxLen {
 			for _, o := range c14Retriable {
@@ -591,6 +674,42 @@ func runC14(c *Ctx) {
 	def := base
 	def.cand = ""
 	rec(def, 1, 2, nil, 1, 1)
+	// ---- arbitrary names: candidate name x out dir, every one- and two-attempt script at budget 1 ----
+	outs := []string{"out", "", ".", "./out//", "out/sub/..", "/abs", "../o", "é"}
+	for ci, cand := range c13Cands {
+		for oi, out := range outs {
+			if c.Tier != "thorough" && (ci+oi)%3 != 0 && oi != 0 {
+				continue
+			}
+			cf := base
+			cf.cand = cand
+			cf.ow = (ci+oi)%4 == 0
+			cf.names = &c14Names{out: out, sdir: "snap", img: "fw.fd"}
+			tag := "names-ok"
+			if cf.refused() {
+				tag = "names-refused"
+			}
+			c.Count(tag)
+			recTag = tag
+			rec(cf, 1, 2, nil, 2, 2)
+			recTag = "exh"
+		}
+	}
+	// ---- arbitrary snapshot dir and image name: every fault ordinal ----
+	for si, sdir := range c13SnapDirs {
+		for ii, img := range c13ImageName {
+			if c.Tier != "thorough" && (si+ii)%2 != 0 {
+				continue
+			}
+			cf := base
+			cf.snap, cf.svsm, cf.scrtm = true, (si+ii)%3 == 0, ii%2 == 0
+			cf.names = &c14Names{out: outs[(si+ii)%len(outs)], sdir: sdir, img: img}
+			for f := -1; f <= 12; f++ {
+				s := []c14Attempt{{failAt: f, retriable: true, mread: 'N'}, {failAt: f + 1, retriable: f%2 == 0, mread: 'N'}, {failAt: -1, mread: 'N'}}
+				one(cf, 1, s, false, "snap-names")
+			}
+		}
+	}
 	// ---- snapshot mode: every fault ordinal, with and without SVSM / S_CRTM files ----
 	for _, svsm := range []bool{false, true} {
 		for _, scrtm := range []bool{false, true} {
@@ -618,6 +737,10 @@ func runC14(c *Ctx) {
 		if c.Rng.Intn(6) == 0 {
 			cf.snap, cf.svsm, cf.scrtm = true, c.Rng.Bool(), c.Rng.Bool()
 		}
+		if c.Rng.Intn(3) == 0 {
+			cf.cand = c13Cands[c.Rng.Intn(len(c13Cands))]
+			cf.names = &c14Names{out: outs[c.Rng.Intn(len(outs))], sdir: c13SnapDirs[c.Rng.Intn(len(c13SnapDirs))], img: c13ImageName[c.Rng.Intn(len(c13ImageName))]}
+		}
 		budget := c.Rng.Intn(12) - 3
 		n := 1 + c.Rng.Intn(10)
 		var seq []int
@@ -640,6 +763,10 @@ func runC14(c *Ctx) {
 			cf.snap, cf.svsm = true, c.Rng.Bool()
 		}
 		cf.scrtm = c.Rng.Bool()
+		if c.Rng.Intn(2) == 0 {
+			cf.cand = c13Cands[c.Rng.Intn(len(c13Cands))]
+			cf.names = &c14Names{out: outs[c.Rng.Intn(len(outs))], sdir: c13SnapDirs[c.Rng.Intn(len(c13SnapDirs))], img: c13ImageName[c.Rng.Intn(len(c13ImageName))]}
+		}
 		budget := c.Rng.Intn(6) - 1
 		n := 1 + c.Rng.Intn(5)
 		var seq []int
